@@ -1,3 +1,3 @@
 module verif.local/simrt
 
-go 1.22
+go 1.23
